@@ -220,6 +220,21 @@ class _NoMerge:
 _NOMERGE = _NoMerge()
 
 
+def _disj(self, a, b):
+    if a is False:
+        return b
+    if b is False:
+        return a
+    if a is True or b is True:
+        return True
+    ta, tb = self.truth_term(a), self.truth_term(b)
+    if isinstance(ta, bool):
+        return True if ta else b
+    if isinstance(tb, bool):
+        return True if tb else a
+    return self.wrap(z3.Or(ta, tb), "bool")
+
+
 def _conj(self, a, b):
     if a is True:
         return b
@@ -639,11 +654,24 @@ def py_eq(self, a, b):
             r = _conj(self, r, self.contains(a, x))
         return r
     if isinstance(a, PDict) and isinstance(b, PDict) and not a.symbolic and not b.symbolic:
-        if set(a.items.keys()) != set(b.items.keys()):
+        from .prims_methods import _unhash
+        if set(a.items.keys()) == set(b.items.keys()):
+            r = True
+            for k in a.items:
+                r = _conj(self, r, self.py_eq(a.items[k], b.items[k]))
+            return r
+        # the keys of ONE engine dict are pairwise distinct on the current path (insertion compares them), so two dicts are equal iff
+        # they have the same number of entries and every entry of a has an equal entry in b
+        if len(a.items) != len(b.items):
+            return False
+        if all(is_concrete(_unhash(k)) for k in list(a.items) + list(b.items)):
             return False
         r = True
-        for k in a.items:
-            r = _conj(self, r, self.py_eq(a.items[k], b.items[k]))
+        for ka, va in a.items.items():
+            some = False
+            for kb, vb in b.items.items():
+                some = _disj(self, some, _conj(self, self.py_eq(_unhash(ka), _unhash(kb)), self.py_eq(va, vb)))
+            r = _conj(self, r, some)
         return r
     if isinstance(a, tuple) and isinstance(b, tuple):
         if len(a) != len(b):
@@ -1138,10 +1166,18 @@ def _initial_field_value(self, obj, name):
                 return val.value
             if isinstance(val, (ast.List, ast.Dict, ast.Set, ast.Tuple)) and not (getattr(val, "elts", None) or getattr(val, "keys", None)):
                 return self.eval(val)
-            if (isinstance(val, ast.Call) and isinstance(val.func, ast.Name) and val.func.id in ("set", "dict", "list", "deque", "OrderedDict")
-                    and not val.args and all(isinstance(k.value, ast.Constant) for k in val.keywords)):
-                return self.call(self.builtins[val.func.id] if val.func.id in self.builtins else self.eval(val.func), [],
-                                 {k.arg: k.value.value for k in val.keywords})
+            if (isinstance(val, ast.Call) and isinstance(val.func, ast.Name)
+                    and val.func.id in ("set", "dict", "list", "deque", "OrderedDict", "defaultdict", "Counter", "WeakValueDictionary")
+                    and all(isinstance(x, ast.Constant) or (isinstance(x, ast.Name) and x.id in ("int", "list", "set", "dict", "str", "bytes",
+                                                                                                 "float", "bool"))
+                            for x in list(val.args) + [k.value for k in val.keywords])):
+                # an empty container (possibly with a default factory / maxlen): evaluate the constructor call in the module's scope
+                from .interp import Frame
+                self.frames.append(Frame(None, {}, f.module))
+                try:
+                    return self.eval(val)
+                finally:
+                    self.frames.pop()
             return _NO_INITIAL
     return _NO_INITIAL
 
